@@ -456,14 +456,22 @@ def module_state_guard(mods):
     visible to later calls of the same path (a history the harness plays), never to another path or job."""
     import copy
     saved = []
+    seen = set()
+
+    def consider(name, val):
+        if name.startswith("__") or type(val) not in (dict, list, set) or id(val) in seen:
+            return
+        seen.add(id(val))
+        try:
+            saved.append((val, copy.deepcopy(val)))
+        except Exception:
+            pass
     for mod in mods:
         for name, val in list(vars(mod).items()):
-            if name.startswith("__") or type(val) not in (dict, list, set):
-                continue
-            try:
-                saved.append((val, copy.deepcopy(val)))
-            except Exception:
-                continue
+            consider(name, val)
+            if isinstance(val, type) and getattr(val, "__module__", "").startswith("productmd"):
+                for cname, cval in list(vars(val).items()):          # class-level containers are shared state as well
+                    consider(cname, cval)
 
     def restore():
         for live, snap in saved:
